@@ -1322,6 +1322,8 @@ class Interp:
             from pathlib import PurePosixPath
 
             return PurePosixPath(*args)  # path *arithmetic* only: anything touching the file system goes through the virtual file system or is refused
+        if name in ("pathlib.Path", "pathlib.PurePath", "pathlib.PurePosixPath") and not kwargs and any(a is None or isinstance(a, (int, float, list, tuple, dict, set)) for a in args):
+            raise Raised("TypeError")  # what CPython does for an argument that is not a string or a path
         if name == "pathlib.Path.cwd" and not args:
             from pathlib import PurePosixPath
 
